@@ -34,6 +34,21 @@ Proof.
 Qed.
 End AtGo.
 
+Lemma go_select_none : select go_undo_table s_None = CNone.
+Proof. vm_compute. reflexivity. Qed.
+
+Definition sample_pb_log : ulog :=
+  mkLog (bs "xid-1") 7
+    [mkItem 2 (bs "t_user")
+       (Some (mkImage (bs "t_user") 2
+          [[mkCol true (bs "id") (-5) (GInt W64 9007199254740992);
+            mkCol false (bs "name") 12 (GStr (bs "test"));
+            mkCol false (bs "price") 8 (GF64 4609434218613702656%N);
+            mkCol false (bs "note") (-1) GNil]]))
+       None].
+Lemma sample_pb_log_ok : log_pb_ok sample_pb_log = true.
+Proof. vm_compute. reflexivity. Qed.
+
 (* a non-trivial log inside the domain of the theorem: every kind, boundary values *)
 Definition sample_log : ulog :=
   mkLog (bs "192.168.0.1:8091:123") 42
